@@ -147,7 +147,7 @@ func (c *control) readDir() {
 			}
 		case '#':
 			params = append(params, len(c.args)-c.argPos)
-		case 'v':
+		case 'v', 'V':
 			var p any
 			if 0 <= c.argPos {
 				c.needArg()
